@@ -6,7 +6,7 @@
 // stdin : one JSON object per line {"id":..,"src":"..","n":N,"inputs":[[f,..],..]?,"path":".."?,"sched":bool?,"run":bool?}
 // stdout: "\n@@RES {json}" per case:
 //   {"id":..,"compile":[..]} | {"id":..,"compile_panic":".."} |
-//   {"id":..,"prog":{"funs":[{"name","nparam","pwords"|null,"nret","code":[["Move",1,2],..],"consts":[u64..],
+//   {"id":..,"prog":{"funs":[{"name","nparam","pwords"|null,"gaw":[element words of the MIR GetArrayElem's in order]|null,"nret","code":[["Move",1,2],..],"consts":[u64..],
 //        "delay_sizes":[..],"jump_tables":[{"min":i,"offsets":[..]}],"ssize":N,"skel":"[..]","nup":k,
 //        "up":[[pos,size,is_closure]..]}],
 //        "globals":[sizes],"ext":[names],"dsp":idx|null,"io":[in,out]|null,"types_plain":[bool..],"types":[tree..]},
@@ -108,7 +108,7 @@ fn type_tree(ty: mimium_lang::interner::TypeNodeId, names: &mut Vec<String>, dep
     }
 }
 
-fn prog_json(p: &Program, pwords: &Option<Vec<u64>>) -> Value {
+fn prog_json(p: &Program, pwords: &Option<Vec<u64>>, gaw: &Option<Vec<Vec<u64>>>) -> Value {
     use state_tree::tree::SizedType;
     let funs: Vec<Value> = p
         .global_fn_table
@@ -119,6 +119,7 @@ fn prog_json(p: &Program, pwords: &Option<Vec<u64>>) -> Value {
                 "name": name,
                 "nparam": f.nparam,
                 "pwords": pwords.as_ref().and_then(|v| v.get(i).copied()),
+                "gaw": gaw.as_ref().and_then(|v| v.get(i).cloned()),
                 "nret": f.nret,
                 "code": f.bytecodes.iter().map(instr_json).collect::<Vec<_>>(),
                 "consts": f.constants,
@@ -204,23 +205,42 @@ fn run_case(case: &Value) -> Value {
         }
         Ok(Ok(ctx)) => ctx,
     };
-    // words of the parameters of every function (an untrusted annotation for the verifier), from a second MIR pass
-    let pwords: Option<Vec<u64>> = guarded(|| {
+    // words of the parameters of every function, and the element widths of the GetArrayElem instructions of every function in
+    // MIR order (untrusted annotations for the verifier), from a second MIR pass
+    let notes: Option<(Vec<u64>, Vec<Vec<u64>>)> = guarded(|| {
         let mut d2 = LocalBufferDriver::new(0);
         let mut c2 = new_ctx(&mut d2, sched, path.clone());
         c2.prepare_compiler();
         c2.get_compiler().unwrap().emit_mir(src).ok().map(|mir| {
-            mir.functions
+            let pw = mir
+                .functions
                 .iter()
                 .map(|f| f.args.iter().map(|a| a.1.word_size() as u64).sum::<u64>())
-                .collect::<Vec<u64>>()
+                .collect::<Vec<u64>>();
+            let gaw = mir
+                .functions
+                .iter()
+                .map(|f| {
+                    f.body
+                        .iter()
+                        .flat_map(|b| b.0.iter())
+                        .filter_map(|(_, i)| match i {
+                            mimium_lang::mir::Instruction::GetArrayElem(_, _, ty) => Some(ty.word_size() as u64),
+                            _ => None,
+                        })
+                        .collect::<Vec<u64>>()
+                })
+                .collect::<Vec<Vec<u64>>>();
+            (pw, gaw)
         })
     })
     .ok()
     .flatten();
     let prog: Program = ctx.get_vm().unwrap().prog.clone();
-    let pwords = pwords.filter(|v| v.len() == prog.global_fn_table.len());
-    res["prog"] = prog_json(&prog, &pwords);
+    let notes = notes.filter(|v| v.0.len() == prog.global_fn_table.len());
+    let pwords = notes.as_ref().map(|n| n.0.clone());
+    let gaw = notes.map(|n| n.1);
+    res["prog"] = prog_json(&prog, &pwords, &gaw);
     if !do_run {
         return res;
     }
